@@ -223,7 +223,8 @@ def run_C06(ctx):
             continue
         raised = None
         try:
-            R.net.is_valid(raises=True)
+            # the documented signature is is_valid(raises=False): positional and keyword calls are the same call
+            R.net.is_valid(True) if ci % 2 else R.net.is_valid(raises=True)
         except Exception as ex:
             raised = ex
         out["coverage"]["evaluations"] += 1
